@@ -805,5 +805,5 @@ func (w *World) errorDiscipline(P string, pull *ssa.Function, tokenMethod string
 		})
 		w.check(P, "R09.4", "xsel."+name+" returns the store's error", fn.Pos(), ok, fmt.Sprintf("%v", ok))
 	}
-	w.floor(P, "R09.4", 6)
+	w.floorSites(P, "R09.4", 6)
 }
